@@ -427,6 +427,21 @@ async def D13():
     return ok, (q, [p[:20] for _, p in o1[:1] + o2[:1] + o3[-1:]])
 
 
+async def D13b():
+    """a comment after the last ';' is not a statement: the application must see one call, the client its result"""
+    s = RecSession(behaviour=lambda se, e, sql, at: ([(len(se.log),)], ["n"]))
+    srv = mkserver([s])
+    a = Peer(srv)
+    await a.login()
+    outs = []
+    for sql in [b"select a from t; -- done", b"select a from t; /* x */", b"select a from t -- c\n; /* x */ ;"]:
+        n0 = len([l for l in s.log if l[0] == "query"])
+        o = await a.cmd(b"\x03" + sql)
+        outs.append((len([l for l in s.log if l[0] == "query"]) - n0, o[0][1][:1] if o else None))
+    await a.finish()
+    return all(n == 1 and first == b"\x01" for n, first in outs), outs
+
+
 # --------------------------------------------------------------------------- C14
 async def D14():
     bad = []
@@ -490,7 +505,7 @@ ALL = {
     "D1": ("C01", D1), "D1b": ("C01", D1b), "D4a": ("C04", D4a), "D4b": ("C04", D4b), "D5a": ("C05", D5a), "D5b": ("C05", D5b),
     "D5c": ("C05", D5c), "D6": ("C06", D6), "D7": ("C07", D7), "D9a": ("C09", D9a), "D9b": ("C09", D9b),
     "D9c": ("C09", D9c), "D9d": ("C09", D9d), "D10a": ("C03", D10a), "D10b": ("C03", D10b),
-    "D10c": ("C03", D10c), "D11": ("C11", D11), "D13": ("C13", D13), "D14": ("C14", D14), "D15": ("C15", D15),
+    "D10c": ("C03", D10c), "D11": ("C11", D11), "D13": ("C13", D13), "D13b": ("C13", D13b), "D14": ("C14", D14), "D15": ("C15", D15),
     "D16": ("C16", D16), "D18": ("C18", D18),
 }
 
